@@ -207,15 +207,29 @@ def part_cache(cx):
                     twin.store(st.clone())
                     continue
                 if kind == "get":
-                    r = client.get("/liquer/api/cache/get/" + u)
-                    g = twin.get(k)
-                    if g is None:
-                        if r.status_code != 404:
-                            cx.viol("cache.get of an absent key not answered with 404", "key %r: HTTP %d" % (k, r.status_code), w)
+                    # the library operation first: an entry whose (posted) metadata is incomplete makes the library
+                    # itself fail - then the service has to fail too, and that is all that is demanded
+                    try:
+                        g = twin.get(k)
+                        b = None if g is None else encode_state_data(g.get(), extension=g.extension)[0]
+                        lib_exc = None
+                    except Exception as e:
+                        g, b, lib_exc = None, None, e
+                    try:
+                        r = client.get("/liquer/api/cache/get/" + u)
+                        status, body = r.status_code, r.data
+                    except Exception as e:
+                        status, body = 500, repr(e).encode()
+                    if lib_exc is not None:
+                        cx.count("cache.get_library_fails")
+                        if 200 <= status < 300:
+                            cx.viol("cache.get answers where the library operation fails", "key %r: library %r, HTTP %d %r" % (k, lib_exc, status, body[:60]), w)
+                    elif g is None:
+                        if status != 404:
+                            cx.viol("cache.get of an absent key not answered with 404", "key %r: HTTP %d" % (k, status), w)
                     else:
-                        b, mime, _ = encode_state_data(g.get(), extension=g.extension)
-                        if r.status_code != 200 or r.data != b:
-                            cx.viol("cache.get differs from the library", "key %r: want %r got HTTP %d %r" % (k, b[:60], r.status_code, r.data[:60]), w)
+                        if status != 200 or body != b:
+                            cx.viol("cache.get differs from the library", "key %r: want %r got HTTP %d %r" % (k, b[:60], status, body[:60]), w)
                 elif kind == "meta":
                     r = client.get("/liquer/api/cache/meta/" + u)
                     m = twin.get_metadata(k)
